@@ -76,238 +76,242 @@ def run(eng, R):
     R.rule("F-info", "the info box refreshes the fit's formatters before printing them (same iteration) and prints cost / ndf / goodness of fit / probability read from the same fit", 8)
 
     # ------------------------------------------------------------------ A-role
-    for an in ADAPTERS:
-        cls = p.find_class(an)
-        for role in ROLES:
-            pr = cls.find_prop(role)
-            if pr is None or pr.fget is None:
-                raise AnalysisError("%s.%s not found" % (an, role))
-            f = pr.fget
-            if f.cls.name == "PlotAdapterBase":
-                continue  # abstract
-            rets = [r.value for r in ast.walk(f.node) if isinstance(r, ast.Return) and r.value is not None]
-            raises = [r for r in ast.walk(f.node) if isinstance(r, ast.Raise)]
-            if not rets and raises:
-                R.ob("A-role", "%s.%s" % (an, role), True, (f.file, f.lineno), "not available for this fit type (raises)")
-                continue
-            axis = "x" if "_x" in role else "y"
-            other = "y" if axis == "x" else "x"
-            is_err = role.endswith("err")
-            side = role.split("_")[0]
-            problems = []
-            for rv in rets:
-                fit, own = _fit_attrs(rv)
-                for a in fit:
-                    head = a.split(".")[0]
-                    last = a.split(".")[-1]
-                    toks = set(head.split("_")) | set(last.split("_"))
-                    if other in toks and axis not in toks:
-                        problems.append("reads the %s attribute %s" % (other, a))
-                    errish = bool({"error", "err", "errors", "widths"} & toks) or last in ("err",)
-                    if is_err and not errish:
-                        problems.append("an uncertainty property reads the value attribute %s" % a)
-                    if not is_err and errish:
-                        problems.append("a value property reads the uncertainty attribute %s" % a)
-                    if role in ("data_y", "model_y") and axis == "y":
-                        want = "data" if side == "data" else "model"
-                        opp = "model" if side == "data" else "data"
-                        if opp in toks and want not in toks:
-                            problems.append("%s reads %s" % (role, a))
-                for o in own:
-                    if o in ROLES:
-                        oax = "x" if "_x" in o else "y"
-                        if oax != axis:
-                            problems.append("reads the other axis' property %s" % o)
-                        if o.endswith("err") != is_err:
-                            problems.append("mixes value and uncertainty property %s" % o)
-            R.ob("A-role", "%s.%s" % (an, role), not problems, (f.file, f.lineno), "%s.%s: %s (returns %s)" % (an, role, "; ".join(problems), [_txt(r) for r in rets]))
-    # histogram: bars span the bin
-    check(eng, R, "A-role", "HistPlotAdapter", "data_xerr", "return", "self._fit.data_container.bin_widths / 2", known=["self._fit.data_container.bin_edges", "self._fit.data_container.bin_centers"], what="the horizontal bar of a histogram point is half the bin width on each side")
-    check(eng, R, "A-role", "HistPlotAdapter", "data_x", "return", "self._fit.data_container.bin_centers", known=["self._fit.data_container.bin_edges", "self._fit.data_container.bin_widths", "self._fit.data_container.low", "self._fit.data_container.high"], what="histogram markers sit at the bin centres")
-    # total uncertainties for the bars
-    for an, role, want in (("XYPlotAdapter", "data_xerr", "self._fit.x_total_error"), ("XYPlotAdapter", "data_yerr", "self._fit.y_total_error"),
-                           ("HistPlotAdapter", "data_yerr", "self._fit.total_error"), ("IndexedPlotAdapter", "data_yerr", "self._fit.total_error")):
-        check(eng, R, "A-role", an, role, "return", want, known=["self._fit.x_data_error", "self._fit.y_data_error", "self._fit.data_error", "self._fit.x_model_error", "self._fit.y_model_error",
-                                                                  "self._fit.model_error", "self._fit.x_total_error", "self._fit.y_total_error", "self._fit.total_error", "self._fit.x_data", "self._fit.y_data"],
-              what="error bars show the *total* pointwise uncertainty of that axis")
+    with R.guard("Arole"):
+        for an in ADAPTERS:
+            cls = p.find_class(an)
+            for role in ROLES:
+                pr = cls.find_prop(role)
+                if pr is None or pr.fget is None:
+                    raise AnalysisError("%s.%s not found" % (an, role))
+                f = pr.fget
+                if f.cls.name == "PlotAdapterBase":
+                    continue  # abstract
+                rets = [r.value for r in ast.walk(f.node) if isinstance(r, ast.Return) and r.value is not None]
+                raises = [r for r in ast.walk(f.node) if isinstance(r, ast.Raise)]
+                if not rets and raises:
+                    R.ob("A-role", "%s.%s" % (an, role), True, (f.file, f.lineno), "not available for this fit type (raises)")
+                    continue
+                axis = "x" if "_x" in role else "y"
+                other = "y" if axis == "x" else "x"
+                is_err = role.endswith("err")
+                side = role.split("_")[0]
+                problems = []
+                for rv in rets:
+                    fit, own = _fit_attrs(rv)
+                    for a in fit:
+                        head = a.split(".")[0]
+                        last = a.split(".")[-1]
+                        toks = set(head.split("_")) | set(last.split("_"))
+                        if other in toks and axis not in toks:
+                            problems.append("reads the %s attribute %s" % (other, a))
+                        errish = bool({"error", "err", "errors", "widths"} & toks) or last in ("err",)
+                        if is_err and not errish:
+                            problems.append("an uncertainty property reads the value attribute %s" % a)
+                        if not is_err and errish:
+                            problems.append("a value property reads the uncertainty attribute %s" % a)
+                        if role in ("data_y", "model_y") and axis == "y":
+                            want = "data" if side == "data" else "model"
+                            opp = "model" if side == "data" else "data"
+                            if opp in toks and want not in toks:
+                                problems.append("%s reads %s" % (role, a))
+                    for o in own:
+                        if o in ROLES:
+                            oax = "x" if "_x" in o else "y"
+                            if oax != axis:
+                                problems.append("reads the other axis' property %s" % o)
+                            if o.endswith("err") != is_err:
+                                problems.append("mixes value and uncertainty property %s" % o)
+                R.ob("A-role", "%s.%s" % (an, role), not problems, (f.file, f.lineno), "%s.%s: %s (returns %s)" % (an, role, "; ".join(problems), [_txt(r) for r in rets]))
+        # histogram: bars span the bin
+        check(eng, R, "A-role", "HistPlotAdapter", "data_xerr", "return", "self._fit.data_container.bin_widths / 2", known=["self._fit.data_container.bin_edges", "self._fit.data_container.bin_centers"], what="the horizontal bar of a histogram point is half the bin width on each side")
+        check(eng, R, "A-role", "HistPlotAdapter", "data_x", "return", "self._fit.data_container.bin_centers", known=["self._fit.data_container.bin_edges", "self._fit.data_container.bin_widths", "self._fit.data_container.low", "self._fit.data_container.high"], what="histogram markers sit at the bin centres")
+        # total uncertainties for the bars
+        for an, role, want in (("XYPlotAdapter", "data_xerr", "self._fit.x_total_error"), ("XYPlotAdapter", "data_yerr", "self._fit.y_total_error"),
+                               ("HistPlotAdapter", "data_yerr", "self._fit.total_error"), ("IndexedPlotAdapter", "data_yerr", "self._fit.total_error")):
+            check(eng, R, "A-role", an, role, "return", want, known=["self._fit.x_data_error", "self._fit.y_data_error", "self._fit.data_error", "self._fit.x_model_error", "self._fit.y_model_error",
+                                                                      "self._fit.model_error", "self._fit.x_total_error", "self._fit.y_total_error", "self._fit.total_error", "self._fit.x_data", "self._fit.y_data"],
+                  what="error bars show the *total* pointwise uncertainty of that axis")
 
     # ------------------------------------------------------------------ A-draw
-    base = "PlotAdapterBase"
-    f = get_func(p, base, "_get_total_error")
-    src = _txt(f.node)
-    ok = "_total_err = np.zeros_like(self.data_y)" in src and "_total_err += getattr(self, _ec + '_yerr') ** 2" in src \
-        and "_total_err += self._fit._cost_function.get_uncertainty_gaussian_approximation(getattr(self, _ec + '_y')) ** 2" in src and "_total_err = np.sqrt(_total_err)" in src
-    g = eng.cfg(f)
-    R.ob("A-draw", "PlotAdapterBase._get_total_error", ok, (f.file, f.lineno),
-         "the plotted uncertainty must be sqrt(sum over contributions of yerr^2 + Poisson term(y)^2), each contribution with its own y values")
-    f = get_func(p, "XYPlotAdapter", "plot_data")
-    calls = _draw_calls(f, "errorbar")
-    ok = len(calls) == 1
-    if ok:
-        pos, kw = _call_args(calls[0])
-        ok = pos == ["self.data_x", "self.data_y"] and kw.get("xerr") == "self.data_xerr" and _closed_kw(f, "errorbar", "yerr") == [norm_spec("self._get_total_error(error_contributions)").canon()]
-    R.ob("A-draw", "XYPlotAdapter.plot_data", ok, (f.file, f.lineno), "data markers at (data_x, data_y) with xerr=data_xerr and yerr=total uncertainty")
-    for an in ("HistPlotAdapter", "IndexedPlotAdapter"):
-        f = get_func(p, an, "plot_data")
+    with R.guard("Adraw"):
+        base = "PlotAdapterBase"
+        f = get_func(p, base, "_get_total_error")
+        src = _txt(f.node)
+        ok = "_total_err = np.zeros_like(self.data_y)" in src and "_total_err += getattr(self, _ec + '_yerr') ** 2" in src \
+            and "_total_err += self._fit._cost_function.get_uncertainty_gaussian_approximation(getattr(self, _ec + '_y')) ** 2" in src and "_total_err = np.sqrt(_total_err)" in src
+        g = eng.cfg(f)
+        R.ob("A-draw", "PlotAdapterBase._get_total_error", ok, (f.file, f.lineno),
+             "the plotted uncertainty must be sqrt(sum over contributions of yerr^2 + Poisson term(y)^2), each contribution with its own y values")
+        f = get_func(p, "XYPlotAdapter", "plot_data")
         calls = _draw_calls(f, "errorbar")
-        env = straight_line_env(f.node) if False else None
-        good = []
-        for c in calls:
-            pos, kw = _call_args(c)
-            conds = common.guard_conditions(f.node, c)
-            full = "xerr" in kw
-            if pos != ["self.data_x", "self.data_y"]:
-                good.append(False)
-                continue
-            if full:
-                good.append(kw.get("xerr") == "self.data_xerr" and "yerr" in kw)
-            else:
-                good.append("yerr" in kw)
-        forms = _closed_kw(f, "errorbar", "yerr")
-        gauss = "(self._fit._cost_function).get_uncertainty_gaussian_approximation(self.data_y)"
-        want_full = "(%s^2 + self.data_yerr^2)^1/2" % gauss
-        okf = want_full in forms and all(x in (want_full, gauss) for x in forms)
-        R.ob("A-draw", "%s.plot_data" % an, bool(calls) and all(good) and okf, (f.file, f.lineno),
-             "data markers at (data_x, data_y); vertical bars = sqrt(total uncertainty^2 + Poisson term^2) (found %s)" % forms)
-    f = get_func(p, "XYPlotAdapter", "plot_model_line")
-    calls = _draw_calls(f, "plot")
-    ok = len(calls) == 1 and _call_args(calls[0])[0] == ["self.model_line_x", "self.model_line_y"]
-    R.ob("A-draw", "XYPlotAdapter.plot_model_line", ok, (f.file, f.lineno), "the model curve must be drawn at (model_line_x, model_line_y)")
-    f = get_func(p, "HistPlotAdapter", "plot_model")
-    src = _txt(f.node)
-    ok = "x=self.model_x" in src and "height=self.model_y" in src and _closed_kw(f, "dict", "width") == [norm_spec("self.model_xerr * 2.0 * kwargs.pop('bar_width_scale_factor')").canon()]
-    R.ob("A-draw", "HistPlotAdapter.plot_model", ok, (f.file, f.lineno), "model bars at model_x with height model_y and the bin width")
-    f = get_func(p, "IndexedPlotAdapter", "plot_model")
-    src = _txt(f.node)
-    ok = "step_fill_between(target_axes, self.model_x, self.model_y, xerr=self.model_xerr, yerr=self.model_yerr" in src
-    R.ob("A-draw", "IndexedPlotAdapter.plot_model", ok, (f.file, f.lineno), "model steps at (model_x, model_y)")
-    f = get_func(p, "UnbinnedPlotAdapter", "plot_model_line")
-    calls = _draw_calls(f, "plot")
-    ok = len(calls) == 1 and _call_args(calls[0])[0] == ["self.model_line_x", "self.model_line_y"]
-    R.ob("A-draw", "UnbinnedPlotAdapter.plot_model_line", ok, (f.file, f.lineno), "the density curve must be drawn at (model_line_x, model_line_y)")
+        ok = len(calls) == 1
+        if ok:
+            pos, kw = _call_args(calls[0])
+            ok = pos == ["self.data_x", "self.data_y"] and kw.get("xerr") == "self.data_xerr" and _closed_kw(f, "errorbar", "yerr") == [norm_spec("self._get_total_error(error_contributions)").canon()]
+        R.ob("A-draw", "XYPlotAdapter.plot_data", ok, (f.file, f.lineno), "data markers at (data_x, data_y) with xerr=data_xerr and yerr=total uncertainty")
+        for an in ("HistPlotAdapter", "IndexedPlotAdapter"):
+            f = get_func(p, an, "plot_data")
+            calls = _draw_calls(f, "errorbar")
+            env = straight_line_env(f.node) if False else None
+            good = []
+            for c in calls:
+                pos, kw = _call_args(c)
+                conds = common.guard_conditions(f.node, c)
+                full = "xerr" in kw
+                if pos != ["self.data_x", "self.data_y"]:
+                    good.append(False)
+                    continue
+                if full:
+                    good.append(kw.get("xerr") == "self.data_xerr" and "yerr" in kw)
+                else:
+                    good.append("yerr" in kw)
+            forms = _closed_kw(f, "errorbar", "yerr")
+            gauss = "(self._fit._cost_function).get_uncertainty_gaussian_approximation(self.data_y)"
+            want_full = "(%s^2 + self.data_yerr^2)^1/2" % gauss
+            okf = want_full in forms and all(x in (want_full, gauss) for x in forms)
+            R.ob("A-draw", "%s.plot_data" % an, bool(calls) and all(good) and okf, (f.file, f.lineno),
+                 "data markers at (data_x, data_y); vertical bars = sqrt(total uncertainty^2 + Poisson term^2) (found %s)" % forms)
+        f = get_func(p, "XYPlotAdapter", "plot_model_line")
+        calls = _draw_calls(f, "plot")
+        ok = len(calls) == 1 and _call_args(calls[0])[0] == ["self.model_line_x", "self.model_line_y"]
+        R.ob("A-draw", "XYPlotAdapter.plot_model_line", ok, (f.file, f.lineno), "the model curve must be drawn at (model_line_x, model_line_y)")
+        f = get_func(p, "HistPlotAdapter", "plot_model")
+        src = _txt(f.node)
+        ok = "x=self.model_x" in src and "height=self.model_y" in src and _closed_kw(f, "dict", "width") == [norm_spec("self.model_xerr * 2.0 * kwargs.pop('bar_width_scale_factor')").canon()]
+        R.ob("A-draw", "HistPlotAdapter.plot_model", ok, (f.file, f.lineno), "model bars at model_x with height model_y and the bin width")
+        f = get_func(p, "IndexedPlotAdapter", "plot_model")
+        src = _txt(f.node)
+        ok = "step_fill_between(target_axes, self.model_x, self.model_y, xerr=self.model_xerr, yerr=self.model_yerr" in src
+        R.ob("A-draw", "IndexedPlotAdapter.plot_model", ok, (f.file, f.lineno), "model steps at (model_x, model_y)")
+        f = get_func(p, "UnbinnedPlotAdapter", "plot_model_line")
+        calls = _draw_calls(f, "plot")
+        ok = len(calls) == 1 and _call_args(calls[0])[0] == ["self.model_line_x", "self.model_line_y"]
+        R.ob("A-draw", "UnbinnedPlotAdapter.plot_model_line", ok, (f.file, f.lineno), "the density curve must be drawn at (model_line_x, model_line_y)")
 
     # ------------------------------------------------------------------ H-panel
-    def errorbar_forms(cname, fname):
-        f = get_func(p, cname, fname)
-        calls = _draw_calls(f, "errorbar")
-        if len(calls) != 1:
-            raise AnalysisError("%s.%s: expected one errorbar call" % (cname, fname))
-        env = straight_line_env(f.node.body)
-        N = Normalizer(env)
-        c = calls[0]
-        kw = {k.arg: k.value for k in c.keywords if k.arg}
-        return f, [N.norm(a).canon() for a in c.args], {k: N.norm(v).canon() for k, v in kw.items()}
+    with R.guard("Hpanel"):
+        def errorbar_forms(cname, fname):
+            f = get_func(p, cname, fname)
+            calls = _draw_calls(f, "errorbar")
+            if len(calls) != 1:
+                raise AnalysisError("%s.%s: expected one errorbar call" % (cname, fname))
+            env = straight_line_env(f.node.body)
+            N = Normalizer(env)
+            c = calls[0]
+            kw = {k.arg: k.value for k in c.keywords if k.arg}
+            return f, [N.norm(a).canon() for a in c.args], {k: N.norm(v).canon() for k, v in kw.items()}
 
-    try:
-        f, pos, kw = errorbar_forms(base, "plot_residual")
-        tot = "(self)._get_total_error(error_contributions)"
-        R.ob("H-panel", "plot_residual", pos == ["self.data_x", norm_spec("self.data_y - self.model_y").canon()] and kw.get("yerr") == tot and kw.get("xerr") == "self.data_xerr", (f.file, f.lineno),
-             "residual panel must show data_y - model_y at data_x with the total uncertainty (found %s, %s)" % (pos, kw))
-        f, pos, kw = errorbar_forms(base, "plot_ratio")
-        R.ob("H-panel", "plot_ratio:values", pos == ["self.data_x", norm_spec("self.data_y / self.model_y").canon()] and kw.get("xerr") == "self.data_xerr", (f.file, f.lineno),
-             "ratio panel must show data_y / model_y at data_x (found %s)" % pos)
-        src = _txt(f.node)
-        R.ob("H-panel", "plot_ratio:bars", "_yerr = self._get_total_error(error_contributions) if _yerr is not None: _yerr /= self.model_y" in src and "yerr=_yerr" in src, (f.file, f.lineno),
-             "ratio bars must be the total uncertainty divided by the model")
-        f, pos, kw = errorbar_forms(base, "plot_pull")
-        want = norm_spec("(self.data_y - self.model_y) / self._get_total_error(error_contributions)").canon()
-        R.ob("H-panel", "plot_pull", pos[0] == "self.data_x" and pos[1] == want, (f.file, f.lineno), "pull panel must show (data_y - model_y) / total uncertainty (found %s, expected %s)" % (pos, want))
-    except KeyError as e:
-        raise AnalysisError("panel formulas: %s" % e)
-    check(eng, R, "H-panel", "XYPlotAdapter", "model_line_y", "return", "self._fit.eval_model_function(x=self.model_line_x)", known=["self.data_x", "self.model_x", "self._fit.x_data", "self._fit.x_model"], what="the curve is the model function at the current parameters over the support points")
-    check(eng, R, "H-panel", "XYPlotAdapter", "y_error_band", "return", "self._fit.error_band(self.model_line_x)", known=["self.data_x", "self.model_x", "self._fit.x_data", "self._fit.x_model"], what="the band half-width is the propagated parameter uncertainty at the same support points")
-    check(eng, R, "H-panel", "UnbinnedPlotAdapter", "model_line_y", "return", "self._fit.eval_model_function(x=self.model_line_x)", what="the curve is the model density over the support points")
+        try:
+            f, pos, kw = errorbar_forms(base, "plot_residual")
+            tot = "(self)._get_total_error(error_contributions)"
+            R.ob("H-panel", "plot_residual", pos == ["self.data_x", norm_spec("self.data_y - self.model_y").canon()] and kw.get("yerr") == tot and kw.get("xerr") == "self.data_xerr", (f.file, f.lineno),
+                 "residual panel must show data_y - model_y at data_x with the total uncertainty (found %s, %s)" % (pos, kw))
+            f, pos, kw = errorbar_forms(base, "plot_ratio")
+            R.ob("H-panel", "plot_ratio:values", pos == ["self.data_x", norm_spec("self.data_y / self.model_y").canon()] and kw.get("xerr") == "self.data_xerr", (f.file, f.lineno),
+                 "ratio panel must show data_y / model_y at data_x (found %s)" % pos)
+            src = _txt(f.node)
+            R.ob("H-panel", "plot_ratio:bars", "_yerr = self._get_total_error(error_contributions) if _yerr is not None: _yerr /= self.model_y" in src and "yerr=_yerr" in src, (f.file, f.lineno),
+                 "ratio bars must be the total uncertainty divided by the model")
+            f, pos, kw = errorbar_forms(base, "plot_pull")
+            want = norm_spec("(self.data_y - self.model_y) / self._get_total_error(error_contributions)").canon()
+            R.ob("H-panel", "plot_pull", pos[0] == "self.data_x" and pos[1] == want, (f.file, f.lineno), "pull panel must show (data_y - model_y) / total uncertainty (found %s, expected %s)" % (pos, want))
+        except KeyError as e:
+            raise AnalysisError("panel formulas: %s" % e)
+        check(eng, R, "H-panel", "XYPlotAdapter", "model_line_y", "return", "self._fit.eval_model_function(x=self.model_line_x)", known=["self.data_x", "self.model_x", "self._fit.x_data", "self._fit.x_model"], what="the curve is the model function at the current parameters over the support points")
+        check(eng, R, "H-panel", "XYPlotAdapter", "y_error_band", "return", "self._fit.error_band(self.model_line_x)", known=["self.data_x", "self.model_x", "self._fit.x_data", "self._fit.x_model"], what="the band half-width is the propagated parameter uncertainty at the same support points")
+        check(eng, R, "H-panel", "UnbinnedPlotAdapter", "model_line_y", "return", "self._fit.eval_model_function(x=self.model_line_x)", what="the curve is the model density over the support points")
 
-    def band_forms(fname):
-        f = get_func(p, "XYPlotAdapter", fname)
-        calls = _draw_calls(f, "fill_between")
-        if len(calls) != 1:
-            raise AnalysisError("XYPlotAdapter.%s: expected one fill_between call" % fname)
-        N = Normalizer(straight_line_env(f.node.body))
-        # the band locals are assigned inside the `if`: inline them from there
-        loc = {}
-        for n in ast.walk(f.node):
-            if isinstance(n, ast.Assign) and isinstance(n.targets[0], ast.Name):
-                loc[n.targets[0].id] = n.value
-        N = Normalizer(loc)
-        return f, [N.norm(a).canon() for a in calls[0].args]
+        def band_forms(fname):
+            f = get_func(p, "XYPlotAdapter", fname)
+            calls = _draw_calls(f, "fill_between")
+            if len(calls) != 1:
+                raise AnalysisError("XYPlotAdapter.%s: expected one fill_between call" % fname)
+            N = Normalizer(straight_line_env(f.node.body))
+            # the band locals are assigned inside the `if`: inline them from there
+            loc = {}
+            for n in ast.walk(f.node):
+                if isinstance(n, ast.Assign) and isinstance(n.targets[0], ast.Name):
+                    loc[n.targets[0].id] = n.value
+            N = Normalizer(loc)
+            return f, [N.norm(a).canon() for a in calls[0].args]
 
-    f, a = band_forms("plot_model_error_band")
-    R.ob("H-panel", "plot_model_error_band", a == ["self.model_line_x", norm_spec("self.model_line_y - self.y_error_band").canon(), norm_spec("self.model_line_y + self.y_error_band").canon()], (f.file, f.lineno),
-         "the band must span model line -/+ error band over the support points (found %s)" % a)
-    f, a = band_forms("plot_ratio_error_band")
-    R.ob("H-panel", "plot_ratio_error_band", a == ["self.model_line_x", norm_spec("1 - self.y_error_band / self.model_line_y").canon(), norm_spec("1 + self.y_error_band / self.model_line_y").canon()], (f.file, f.lineno),
-         "the ratio band must span 1 -/+ band / model line (found %s)" % a)
-    f, a = band_forms("plot_residual_error_band")
-    R.ob("H-panel", "plot_residual_error_band", a == ["self.model_line_x", norm_spec("-self.y_error_band").canon(), "self.y_error_band"], (f.file, f.lineno), "the residual band must span -/+ band (found %s)" % a)
+        f, a = band_forms("plot_model_error_band")
+        R.ob("H-panel", "plot_model_error_band", a == ["self.model_line_x", norm_spec("self.model_line_y - self.y_error_band").canon(), norm_spec("self.model_line_y + self.y_error_band").canon()], (f.file, f.lineno),
+             "the band must span model line -/+ error band over the support points (found %s)" % a)
+        f, a = band_forms("plot_ratio_error_band")
+        R.ob("H-panel", "plot_ratio_error_band", a == ["self.model_line_x", norm_spec("1 - self.y_error_band / self.model_line_y").canon(), norm_spec("1 + self.y_error_band / self.model_line_y").canon()], (f.file, f.lineno),
+             "the ratio band must span 1 -/+ band / model line (found %s)" % a)
+        f, a = band_forms("plot_residual_error_band")
+        R.ob("H-panel", "plot_residual_error_band", a == ["self.model_line_x", norm_spec("-self.y_error_band").canon(), "self.y_error_band"], (f.file, f.lineno), "the residual band must span -/+ band (found %s)" % a)
 
-    # histogram density curve: scaled by the number of *all* filled entries (the fit's model uses n_entries, under- and overflow included)
-    HA = p.find_class("HistPlotAdapter")
-    md = HA.find_prop("model_density_y").fget
+        # histogram density curve: scaled by the number of *all* filled entries (the fit's model uses n_entries, under- and overflow included)
+        HA = p.find_class("HistPlotAdapter")
+        md = HA.find_prop("model_density_y").fget
 
-    def closure_reads(fn, seen):
-        out = []
-        for a in ast.walk(fn.node):
-            if isinstance(a, ast.Attribute):
-                out.append(" ".join(ast.unparse(a).split()))
-                if isinstance(a.value, ast.Name) and a.value.id == "self":
-                    pr = HA.find_prop(a.attr)
-                    if pr is not None and pr.fget is not None and pr.fget.node is not fn.node and a.attr not in seen:
-                        seen.add(a.attr)
-                        out.extend(closure_reads(pr.fget, seen))
-        return out
-
-    seen = set()
-    reads = closure_reads(md, seen)
-    # helpers of the fit itself called from the adapter (self._fit.<method>()) are read through as well
-    HF = p.find_class("HistFit")
-    for c in [x for x in ast.walk(md.node) if isinstance(x, ast.Call) and isinstance(x.func, ast.Attribute) and " ".join(ast.unparse(x.func.value).split()) == "self._fit"]:
-        hm = HF.find_method(c.func.attr)
-        if hm is not None and c.func.attr != "eval_model_function_density":
-            for a in ast.walk(hm.node):
+        def closure_reads(fn, seen):
+            out = []
+            for a in ast.walk(fn.node):
                 if isinstance(a, ast.Attribute):
-                    t = " ".join(ast.unparse(a).split())
-                    reads.append(t)
-                    if t in ("self._density", "self._param_model.density", "self.density"):
-                        reads.append("self._fit.density")
-    has_total = any(r.endswith(".n_entries") for r in reads)
-    from_bins = sorted({r for r in reads if r in ("self.data_y", "self._fit.data", "self.model_y", "self._fit.model")})
-    R.ob("H-panel", "HistPlotAdapter.model_density_y:entries", has_total and not from_bins, (md.file, md.lineno),
-         "the density curve must be scaled with the container's n_entries (all filled entries; HistFit.model uses the same number); found %s - a count taken from the in-range bins "
-         "is too small whenever entries lie in the under- or overflow" % (("reads " + ", ".join(from_bins)) if from_bins else "no read of n_entries"))
-    R.ob("H-panel", "HistPlotAdapter.model_density_y:curve", any(r == "self._fit.eval_model_function_density" for r in reads) and any(r == "self.model_density_x" for r in reads)
-         and any(r == "self._fit.density" for r in reads), (md.file, md.lineno), "the curve must be the fit's model density over model_density_x, scaled by the entries only for a density model")
+                    out.append(" ".join(ast.unparse(a).split()))
+                    if isinstance(a.value, ast.Name) and a.value.id == "self":
+                        pr = HA.find_prop(a.attr)
+                        if pr is not None and pr.fget is not None and pr.fget.node is not fn.node and a.attr not in seen:
+                            seen.add(a.attr)
+                            out.extend(closure_reads(pr.fget, seen))
+            return out
+
+        seen = set()
+        reads = closure_reads(md, seen)
+        # helpers of the fit itself called from the adapter (self._fit.<method>()) are read through as well
+        HF = p.find_class("HistFit")
+        for c in [x for x in ast.walk(md.node) if isinstance(x, ast.Call) and isinstance(x.func, ast.Attribute) and " ".join(ast.unparse(x.func.value).split()) == "self._fit"]:
+            hm = HF.find_method(c.func.attr)
+            if hm is not None and c.func.attr != "eval_model_function_density":
+                for a in ast.walk(hm.node):
+                    if isinstance(a, ast.Attribute):
+                        t = " ".join(ast.unparse(a).split())
+                        reads.append(t)
+                        if t in ("self._density", "self._param_model.density", "self.density"):
+                            reads.append("self._fit.density")
+        has_total = any(r.endswith(".n_entries") for r in reads)
+        from_bins = sorted({r for r in reads if r in ("self.data_y", "self._fit.data", "self.model_y", "self._fit.model")})
+        R.ob("H-panel", "HistPlotAdapter.model_density_y:entries", has_total and not from_bins, (md.file, md.lineno),
+             "the density curve must be scaled with the container's n_entries (all filled entries; HistFit.model uses the same number); found %s - a count taken from the in-range bins "
+             "is too small whenever entries lie in the under- or overflow" % (("reads " + ", ".join(from_bins)) if from_bins else "no read of n_entries"))
+        R.ob("H-panel", "HistPlotAdapter.model_density_y:curve", any(r == "self._fit.eval_model_function_density" for r in reads) and any(r == "self.model_density_x" for r in reads)
+             and any(r == "self._fit.density" for r in reads), (md.file, md.lineno), "the curve must be the fit's model density over model_density_x, scaled by the entries only for a density model")
 
     # ------------------------------------------------------------------ F-info
-    gi = get_func(p, "Plot", "_get_fit_info")
-    sites = [s for s in fresh.print_sites(p) if s[0].qualname == "Plot._get_fit_info"]
-    if not sites:
-        raise AnalysisError("Plot._get_fit_info: print of the parameter formatters not found")
-    for f, c, src, stored in sites:
-        ok, why = fresh.check_site(eng, f, c)
-        R.ob("F-info", "Plot._get_fit_info:refresh", ok, (f.file, c.lineno), "the info box prints stored parameter numbers: %s" % why)
-    src = _txt(gi.node)
-    # the quantity is read from the fit that the box describes (into a local or directly at its use)
-    need = {"ndf": "plot_adapter._fit.ndf", "cost": "plot_adapter._fit.cost_function_value", "gof": "plot_adapter._fit.goodness_of_fit",
-            "cost function": "plot_adapter._fit._cost_function", "probability": "ParameterFormatter('chi2', plot_adapter._fit.chi2_probability)",
-            "multi ndf": "self._multifit.ndf", "multi cost": "self._multifit.cost_function_value", "multi gof": "self._multifit.goodness_of_fit",
-            "multi probability": "ParameterFormatter('chi2', self._multifit.chi2_probability)"}
-    for k, w in need.items():
-        R.ob("F-info", "Plot._get_fit_info:%s" % k, common.Src(str(src)).like(w), (gi.file, gi.lineno), "the info box must read %s from the fit it describes: `%s`" % (k, w))
-    n_fmt = 0
-    for c in walk_no_nested(gi.node):
-        if isinstance(c, ast.Call) and isinstance(c.func, ast.Attribute) and c.func.attr == "get_formatted" and "formatter" in _txt(c.func.value):
-            # the numbers are read through the locals that hold them (whatever they are called): what counts is which fit they come from
-            kw = {k.arg: _txt(common.resolve_local(gi.node, k.value)) for k in c.keywords if k.arg}
-            multi = "_multi" in _txt(common.resolve_local(gi.node, c.func.value))
-            n_fmt += 1
-            val = kw.get("value")
-            ndf = kw.get("n_degrees_of_freedom")
-            own = "self._multifit" if multi else "plot_adapter._fit"
-            okv = val in (own + ".goodness_of_fit", own + ".cost_function_value")
-            okn = ndf is None or ndf == own + ".ndf"
-            okpair = not (ndf is not None and val != own + ".goodness_of_fit")
-            R.ob("F-info", "Plot._get_fit_info:cost text@%d" % n_fmt, okv and okn and okpair, (gi.file, c.lineno),
-                 "cost text must print the %s fit's own numbers, and '/ ndf' only together with the goodness of fit (value=%s, ndf=%s)" % ("multi" if multi else "single", val, ndf))
-    if n_fmt < 4:
-        raise AnalysisError("Plot._get_fit_info: cost formatter calls not found (%d)" % n_fmt)
+    with R.guard("Finfo"):
+        gi = get_func(p, "Plot", "_get_fit_info")
+        sites = [s for s in fresh.print_sites(p) if s[0].qualname == "Plot._get_fit_info"]
+        if not sites:
+            raise AnalysisError("Plot._get_fit_info: print of the parameter formatters not found")
+        for f, c, src, stored in sites:
+            ok, why = fresh.check_site(eng, f, c)
+            R.ob("F-info", "Plot._get_fit_info:refresh", ok, (f.file, c.lineno), "the info box prints stored parameter numbers: %s" % why)
+        src = _txt(gi.node)
+        # the quantity is read from the fit that the box describes (into a local or directly at its use)
+        need = {"ndf": "plot_adapter._fit.ndf", "cost": "plot_adapter._fit.cost_function_value", "gof": "plot_adapter._fit.goodness_of_fit",
+                "cost function": "plot_adapter._fit._cost_function", "probability": "ParameterFormatter('chi2', plot_adapter._fit.chi2_probability)",
+                "multi ndf": "self._multifit.ndf", "multi cost": "self._multifit.cost_function_value", "multi gof": "self._multifit.goodness_of_fit",
+                "multi probability": "ParameterFormatter('chi2', self._multifit.chi2_probability)"}
+        for k, w in need.items():
+            R.ob("F-info", "Plot._get_fit_info:%s" % k, common.Src(str(src)).like(w), (gi.file, gi.lineno), "the info box must read %s from the fit it describes: `%s`" % (k, w))
+        n_fmt = 0
+        for c in walk_no_nested(gi.node):
+            if isinstance(c, ast.Call) and isinstance(c.func, ast.Attribute) and c.func.attr == "get_formatted" and "formatter" in _txt(c.func.value):
+                # the numbers are read through the locals that hold them (whatever they are called): what counts is which fit they come from
+                kw = {k.arg: _txt(common.resolve_local(gi.node, k.value)) for k in c.keywords if k.arg}
+                multi = "_multi" in _txt(common.resolve_local(gi.node, c.func.value))
+                n_fmt += 1
+                val = kw.get("value")
+                ndf = kw.get("n_degrees_of_freedom")
+                own = "self._multifit" if multi else "plot_adapter._fit"
+                okv = val in (own + ".goodness_of_fit", own + ".cost_function_value")
+                okn = ndf is None or ndf == own + ".ndf"
+                okpair = not (ndf is not None and val != own + ".goodness_of_fit")
+                R.ob("F-info", "Plot._get_fit_info:cost text@%d" % n_fmt, okv and okn and okpair, (gi.file, c.lineno),
+                     "cost text must print the %s fit's own numbers, and '/ ndf' only together with the goodness of fit (value=%s, ndf=%s)" % ("multi" if multi else "single", val, ndf))
+        if n_fmt < 4:
+            raise AnalysisError("Plot._get_fit_info: cost formatter calls not found (%d)" % n_fmt)
